@@ -240,6 +240,13 @@ func shrinkMisc(c *Case, try func(*Case) bool) bool {
 			any = true
 		}
 	}
+	if c.Sink != nil && c.Sink.Rich {
+		d := c.Clone()
+		d.Sink.Rich = false
+		if try(d) {
+			any = true
+		}
+	}
 	if c.Sink != nil && c.Sink.Sticky {
 		d := c.Clone()
 		d.Sink.Sticky = false
